@@ -288,7 +288,10 @@ fn drive_raw<T: Transport, const N: usize>(t: T, p: &NetParams, rng: &mut SmallR
 }
 
 pub fn run(p: &NetParams, sc: &str) -> (Vec<Vec<String>>, Value) {
+    // every third scenario runs on a platform that maps buffers in place (no bounce copies)
+    INPLACE_MODE.with(|m| m.set(p.seed % 3 == 0));
     reset_world();
+    INPLACE_MODE.with(|m| m.set(false));
     let mut rng = SmallRng::seed_from_u64(p.seed);
     let negotiated = p.offered & ((1 << 5) | (1 << 16) | (1 << 28) | (1 << 29) | (1 << 32) | (1 << 33));
     let hdr = if negotiated >> 32 & 1 == 1 { 12 } else { 10 };
@@ -337,15 +340,15 @@ pub fn all_params(thorough: bool, seed: u64) -> Vec<NetParams> {
                 for (fi, feat) in [0u64, (1 << 5) | (1 << 16), 1 << 28, (1 << 29) | (1 << 5), (1 << 28) | (1 << 29) | (1 << 33)].iter().enumerate() {
                     for mode in ["raw", "buf"] {
                         for v1 in [false, true] {
-                            // without VERSION_1 the header is the 10-byte legacy one (legacy MMIO / model only)
-                            if !v1 && (transport.starts_with("pci")) {
-                                continue;
-                            }
+                            // the header form follows the *negotiated* VERSION_1 bit, not the
+                            // transport generation: legacy transports mostly come without it and
+                            // modern ones with it, but every pairing occurs (C08, C16)
                             if !thorough && (pi + fi) % 2 == 1 && mode == "raw" {
                                 continue;
                             }
                             s += 1;
-                            let legacy = !v1 && transport != "model" || (!v1 && s % 2 == 0);
+                            let can_be_legacy = !transport.starts_with("pci");
+                            let legacy = can_be_legacy && if v1 { s % 5 == 0 } else { s % 3 != 0 };
                             let offered = if v1 { feat | (1 << 32) } else { *feat };
                             v.push(NetParams { transport: transport.into(), legacy, offered, policy: policy.to_string(), mode: mode.into(),
                                                qsize: [2, 4, 16][(s % 3) as usize], ops: if thorough { 500 } else { 160 }, seed: s });
